@@ -65,3 +65,37 @@ Proof.
   - intros X HX. rewrite <- cM by auto. rewrite il by auto. exact iM.
   - intros X HX. rewrite <- cM by auto. rewrite ir by auto. exact iM.
 Qed.
+
+(* ---- the adjoint representation (property C06, algebraic part) ---- *)
+Definition commutator (A B : list (list R)) : list (list R) :=
+  @msub RS (@mmul RS A B) (@mmul RS B A).
+
+(* the matrix of X in the representation the Lie algebra lives in: the top-left LieAlg-sized block
+   of the homogeneous matrix (for SO2 / SO3 that is rotation(); for the other groups all of transform()) *)
+Definition g_matrep (G : GroupOps RS) (X : list R) : list (list R) :=
+  @mblock RS (g_transform G X) 0 0 (g_alg G) (g_alg G).
+
+Record AdjLaws (G : GroupOps RS) (valid : list R -> Prop) : Prop := mkAdj {
+  (* X.adj() * s is the vector of X * hat(s) * X^-1 *)
+  ad_conj : forall X s, valid X -> length s = g_dof G ->
+     @mmul RS (@mmul RS (g_matrep G X) (g_hat G s)) (g_matrep G (g_inverse G X)) = g_hat G (@mvmul RS (g_adj G X) s);
+  (* Adj(X*Y) = Adj(X) * Adj(Y); Adj(Identity) = I; Adj(X^-1) is the inverse matrix *)
+  ad_hom : forall X Y, valid X -> valid Y -> g_adj G (g_compose G X Y) = mmul (g_adj G X) (g_adj G Y);
+  ad_identity : g_adj G (g_identity G) = mid (g_dof G);
+  ad_inverse : forall X, valid X -> mmul (g_adj G (g_inverse G X)) (g_adj G X) = mid (g_dof G);
+  (* t.smallAdj() * s is the vector of the commutator [hat t, hat s] *)
+  ad_small : forall t s, length t = g_dof G -> length s = g_dof G ->
+     g_hat G (mvmul (g_smallAdj G t) s) = commutator (g_hat G t) (g_hat G s);
+  (* t.ljac() = (-t).rjac() *)
+  ad_ljac_rjac : forall t, length t = g_dof G -> g_ljac G t = g_rjac G (vneg t)
+}.
+
+(* Adj(X^-1) Adj(X) = I follows from the homomorphism property and C01 *)
+Lemma adj_inverse_of_hom (G : GroupOps RS) (C : GroupCore G) :
+  (forall X Y, gc_valid C X -> gc_valid C Y -> g_adj G (g_compose G X Y) = mmul (g_adj G X) (g_adj G Y)) ->
+  g_adj G (g_identity G) = mid (g_dof G) ->
+  forall X, gc_valid C X -> mmul (g_adj G (g_inverse G X)) (g_adj G X) = mid (g_dof G).
+Proof.
+  intros Hh Hi X HX. rewrite <- Hh by (try apply gc_inverse_valid; assumption).
+  rewrite (gc_inv_l G C) by assumption. exact Hi.
+Qed.
